@@ -197,14 +197,19 @@ Proof. exact theorem_applies_joins_ok. Qed.
 Print Assumptions joins_fragment_is_decidable.
 
 (* non-vacuity: employees and their departments in two tables; a duplicated key on the parent side, a NULL key and an
-   unmatched key on the child side; a graph map on the child's subject map; both output formats *)
+   unmatched key on the child side; a referencing object map without join condition over the employees' own table; a graph map on the child's subject map; both output formats *)
 Definition dj : document :=
   [{| t_id := u "#Emp"; t_src := u "E"; t_nonasserted := false; t_subj := tmx KTempl "http://e/emp/{id}"; t_sjoins := [];
       t_classes := [u "http://e/Emp"]; t_sgraphs := [tmx KTempl "http://e/g/{id}"];
       t_poms := [{| p_preds := [tmx KConst "http://e/worksIn"];
                     p_objs := [{| o_tm := mk_tmap KParent (u "#Dept") CkIri None; o_lang := None; o_dt := None; o_joins := [(u "dept", u "code")] |}]; p_graphs := [] |};
                  {| p_preds := [tmx KConst "http://e/name"];
-                    p_objs := [{| o_tm := tmx KRef "name"; o_lang := None; o_dt := None; o_joins := [] |}]; p_graphs := [] |}] |};
+                    p_objs := [{| o_tm := tmx KRef "name"; o_lang := None; o_dt := None; o_joins := [] |}]; p_graphs := [] |};
+                 (* R2RML's plain referencing object map: same logical source, no join condition *)
+                 {| p_preds := [tmx KConst "http://e/badge"];
+                    p_objs := [{| o_tm := mk_tmap KParent (u "#Badge") CkIri None; o_lang := None; o_dt := None; o_joins := [] |}]; p_graphs := [] |}] |};
+   {| t_id := u "#Badge"; t_src := u "E"; t_nonasserted := false; t_subj := tmx KTempl "http://e/badge/{id}"; t_sjoins := [];
+      t_classes := [u "http://e/Badge"]; t_sgraphs := []; t_poms := [] |};
    {| t_id := u "#Dept"; t_src := u "D"; t_nonasserted := false; t_subj := tmx KTempl "http://e/dept/{code}/{site}"; t_sjoins := [];
       t_classes := []; t_sgraphs := [];
       t_poms := [{| p_preds := [tmx KConst "http://e/site"];
@@ -219,9 +224,10 @@ Example end_to_end_join_example : forall nq,
   theorem_applies_joins dj = true /\
   match normalise dj with
   | Ok rules => match materialize_rules (cfgx nq) fex rules (delivered (cfgx nq) rawj) with
-                | Ok l => length l = 11%nat /\ forallb (fun x => mem x (spec_lines (scfgx nq) fex dj (spec_tables rawj))) l = true
-                          /\ length (spec_lines (scfgx nq) fex dj (spec_tables rawj)) = 11%nat
+                | Ok l => length l = 17%nat /\ forallb (fun x => mem x (spec_lines (scfgx nq) fex dj (spec_tables rawj))) l = true
+                          /\ length (spec_lines (scfgx nq) fex dj (spec_tables rawj)) = 17%nat
                           /\ mem (u "<http://e/emp/1> <http://e/worksIn> <http://e/dept/a/y>" ++ (if nq then u " <http://e/g/1>" else [])) l = true
+                          /\ mem (u "<http://e/emp/2> <http://e/badge> <http://e/badge/2>" ++ (if nq then u " <http://e/g/2>" else [])) l = true
                 | Err _ => False
                 end
   | Err _ => False
